@@ -7,6 +7,7 @@ package filtering
 //vx:overlay internal/filtering/zz_vx_c05.go
 //vx:entry vxC05Filter reach=guarded-access
 //vx:entry vxC05FilterLists reach=guarded-access
+//vx:entry vxC05FilterAdmin reach=guarded-access
 //vx:stub (*encoding/json.Decoder).Decode vxC05FJSONDecode
 //vx:stub github.com/AdguardTeam/urlfilter/filterlist.NewFileRuleList vxC05FNewFileRuleList
 //vx:stub github.com/AdguardTeam/AdGuardHome/internal/aghhttp.WriteJSONResponse vxC05FWriteJSON
@@ -18,6 +19,7 @@ package filtering
 //vx:stub runtime/debug.FreeOSMemory vxC05Free
 
 import (
+	"context"
 	"encoding/json"
 	"net/http"
 	"sync"
@@ -124,6 +126,17 @@ func vxC05FJSONDecode(dec *json.Decoder, v any) error {
 	case *filteringConfig:
 		r.Enabled = true
 		r.Interval = 24
+	case *rewriteEntryJSON:
+		r.Domain, r.Answer = "a.b", "1.2.3.4"
+	case *rewriteUpdateJSON:
+		r.Target = rewriteEntryJSON{Domain: "a.b", Answer: "1.2.3.4"}
+		r.Update = rewriteEntryJSON{Domain: "c.d", Answer: "5.6.7.8"}
+	case *[]string:
+		*r = []string{}
+	case *BlockedServices:
+		r.IDs = []string{}
+	case *SafeSearchConfig:
+		r.Enabled = true
 	}
 	return nil
 }
@@ -195,6 +208,70 @@ func vxC05FilterLists() {
 		d.handleSafeBrowsingEnable(w, r)
 	default: // admin: parental switch
 		d.handleParentalDisable(w, r)
+	}
+	if vx.GuardHits() > 0 {
+		vx.Reach("guarded-access")
+	}
+	vx.Assert(vx.Held(&d.engineLock) == 0 && vx.Held(d.confMu) == 0 && vx.Held(d.conf.filtersMu) == 0, "locks are released on return")
+}
+
+type vxC05FSafeSearch struct{}
+
+func (vxC05FSafeSearch) CheckHost(ctx context.Context, host string, qtype uint16) (Result, error) {
+	return Result{}, nil
+}
+func (vxC05FSafeSearch) Update(ctx context.Context, conf SafeSearchConfig) error { return nil }
+
+// vxC05FilterAdmin: the admin handlers for rewrites, blocked services and safe
+// search (all owned by confMu), each followed by the configuration save.
+func vxC05FilterAdmin() {
+	c := &Config{ProtectionEnabled: true, FilteringEnabled: true, BlockedServices: &BlockedServices{Schedule: schedule.EmptyWeekly()},
+		Rewrites: []*LegacyRewrite{{Domain: "a.b", Answer: "1.2.3.4"}}}
+	d := VxC05NewFilter(c)
+	d.safeSearch = vxC05FSafeSearch{}
+	_ = d.prepareRewrites()
+	vxC05Filt = d
+	d.conf.ConfigModified = func() {
+		saved := Config{}
+		d.WriteDiskConfig(&saved)
+	}
+	vx.Guard(&d.conf.Rewrites, d.confMu, "DNSFilter.conf.Rewrites")
+	vx.Guard(&d.conf.BlockedServices, d.confMu, "DNSFilter.conf.BlockedServices")
+	vx.Guard(&d.conf.SafeSearchConf, d.confMu, "DNSFilter.conf.SafeSearchConf")
+	vx.Guard(&d.conf.SafeBrowsingEnabled, d.confMu, "DNSFilter.conf.SafeBrowsingEnabled")
+	vx.Guard(&d.conf.ParentalEnabled, d.confMu, "DNSFilter.conf.ParentalEnabled")
+
+	w := &vxC05FWriter{h: http.Header{}}
+	r := (&http.Request{Method: http.MethodPost, Header: http.Header{"Content-Type": {"application/json"}}, Body: http.NoBody}).WithContext(context.Background())
+	switch vx.Choice("op", 14) {
+	case 0:
+		d.handleRewriteList(w, r)
+	case 1:
+		d.handleRewriteAdd(w, r)
+	case 2:
+		d.handleRewriteDelete(w, r)
+	case 3:
+		d.handleRewriteUpdate(w, r)
+	case 4:
+		d.handleBlockedServicesList(w, r)
+	case 5:
+		d.handleBlockedServicesSet(w, r)
+	case 6:
+		d.handleBlockedServicesGet(w, r)
+	case 7:
+		d.handleBlockedServicesUpdate(w, r)
+	case 8:
+		d.handleSafeSearchEnable(w, r)
+	case 9:
+		d.handleSafeSearchDisable(w, r)
+	case 10:
+		d.handleSafeSearchStatus(w, r)
+	case 11:
+		d.handleSafeSearchSettings(w, r)
+	case 12:
+		d.handleSafeBrowsingStatus(w, r)
+	default:
+		d.handleParentalStatus(w, r)
 	}
 	if vx.GuardHits() > 0 {
 		vx.Reach("guarded-access")
